@@ -87,6 +87,9 @@ def build_spec(sc):
     else:
         handlers.append(dict(h, kind=kind))
         hid = 'hx'
+    if sc['sibling'] and kind == 'startup':
+        # a second startup handler that needs a few more attempts: what the first one ended with must not be forgotten meanwhile
+        handlers.append({'kind': 'startup', 'id': 'sib', 'script': [{'o': 'temp', 'delay': 2.0}, {'o': 'temp', 'delay': 9.0}]})
     if sc['sibling'] and kind in ('create', 'update', 'sub'):
         handlers.append({'kind': 'update' if kind == 'update' else 'create', 'id': 'sib',
                          'script': [{'o': 'temp', 'delay': 2.0}, {'o': 'temp', 'delay': 9.0}]})
